@@ -3,7 +3,7 @@
    Models: lib/Tensor.v (numpy pipelines of UnitaryBuilder / StateVector), circuit/Sim.v (Circuit). *)
 From Coq Require Import List NArith Arith ZArith Ring.
 Import ListNotations.
-From BQ Require Import lib.Tensor lib.TensorThm circuit.Sim circuit.SimThm.
+From BQ Require Import lib.Tensor lib.TensorThm lib.Trace circuit.Sim circuit.SimThm circuit.SimGradThm circuit.SimTraceThm circuit.SimExec.
 Open Scope N_scope.
 
 Section C06.
@@ -72,6 +72,14 @@ Theorem C06_embed_identity : forall radixes loc,
   nd_eq R (embed R r0 radixes loc (nd_identity R r0 r1 (prodN (gather loc radixes)))) (nd_identity R r0 r1 (prodN radixes)).
 Proof. exact (embed_identity R r0 r1 rconj). Qed.
 
+(* the matrix semantics satisfies Trace.v's commutation hypothesis: programs equal up to swaps of adjacent
+   operations on disjoint locations (Trace.equiv) have the same ordered product *)
+Theorem C06_equiv_same_product : forall radixes (s t : list (nd R * list nat)),
+  allpos radixes -> equiv (nd R * list nat) snd s t -> Forall (wf_mat R radixes) s ->
+  forall acc, sq R radixes acc ->
+  nd_eq R (uprod R r0 radd rmul radixes s acc) (uprod R r0 radd rmul radixes t acc).
+Proof. exact (fun radixes s t Hpos => equiv_uprod R r0 r1 radd rmul rsub ropp rconj Rth radixes Hpos s t). Qed.
+
 (* ---- the circuit ---- *)
 Theorem C06_unitary_is_product : forall (c : circuit R P) (ps : list P),
   allpos (c_radixes c) -> Forall (wf_op R P (c_radixes c)) (ops_of R P c) ->
@@ -130,6 +138,27 @@ Theorem C06_freeze_param : forall (c : circuit R P) i,
              c_radixes c' = c_radixes c /\
              get_unitary R r0 r1 radd rmul rconj P mz c' [] = get_unitary R r0 r1 radd rmul rconj P mz c [].
 Proof. exact (freeze_param_spec R r0 r1 radd rmul rconj P mz). Qed.
+(* ---- gradient: for ANY derivation D of the entry ring (additive, Leibniz): if parameter (x, p) occurs only in
+   operation x (all other gate matrices are D-constant), the declared partial derivative of x's gate is D of its
+   matrix, and every gate matrix satisfies U U^dagger = 1, then entry (x, p) of the returned gradient is D of the
+   returned unitary - and the returned unitary is the ordered product, i.e. get_unitary. ---- *)
+Variable D : R -> R.
+Hypothesis D_add : forall a b, D (radd a b) = radd (D a) (D b).
+Hypothesis D_mul : forall a b, D (rmul a b) = radd (rmul (D a) b) (rmul a (D b)).
+
+Theorem C06_grad_product_rule : forall (c : circuit R P) (ps : list P) G gs,
+  allpos (c_radixes c) ->
+  Forall (wf_entry R (c_radixes c)) (col_of R P c ps) ->
+  Forall (unitary_entry R r0 r1 radd rmul rconj (c_radixes c)) (col_of R P c ps) ->
+  (ps = [] \/ length ps = num_params R P c) ->
+  get_unitary_and_grad R r0 r1 radd rmul rconj P mz c ps = Some (G, gs) ->
+  nd_eq R G (uprod R r0 radd rmul (c_radixes c) (gate_mats R P c ps) (nd_identity R r0 r1 (prodN (c_radixes c)))) /\
+  length gs = glen R (col_of R P c ps) /\
+  forall pre x post p d, col_of R P c ps = pre ++ x :: post -> (p < length (e_dM R x))%nat ->
+    Forall (fun y => Dconst R r0 D (e_M R y)) (pre ++ post) ->
+    nd_eq R (nth p (e_dM R x) d) (nd_D R D (e_M R x)) ->
+    nd_eq R (nth (glen R pre + p) gs d) (nd_D R D G).
+Proof. exact (grad_product_rule R r0 r1 radd rmul rsub ropp rconj Rth P mz mz_ok D D_add D_mul). Qed.
 End C06.
 
 (* ---- non-vacuity: the execution instance Z[i] satisfies the hypotheses, on a mixed-radix, permuted location ---- *)
@@ -144,3 +173,30 @@ Proof.
   - repeat constructor; simpl; intuition discriminate.
   - repeat constructor.
 Qed.
+
+(* the model computes: CNOT with control qudit 2 and target qudit 0 on radixes [2;3;2] maps |0,1,1> (3) to |1,1,1> (9) *)
+Example C06_pipeline_computes :
+  at_ (ub_get_unitary GI [2; 3; 2]
+        (apply_right GI gi0 gi_add gi_mul gi_conj [2; 3; 2] (ub_init GI gi0 gi1 [2; 3; 2])
+           (rows_nd 4 [[gi1; gi0; gi0; gi0]; [gi0; gi1; gi0; gi0]; [gi0; gi0; gi0; gi1]; [gi0; gi0; gi1; gi0]])
+           [2%nat; 0%nat] false)) [9; 3] = gi1.
+Proof. vm_compute. reflexivity. Qed.
+
+(* the gradient theorem's hypotheses are satisfiable with a NON-zero derivation: dual numbers Z[e]/(e^2),
+   D(a + b e) = b e, the one-qubit gate diag(1+e, 1) (unitary for the conjugation e -> -e), dU = diag(e, 0) *)
+Theorem C06_du_ring : ring_theory du0 du1 du_add du_mul du_sub du_opp (@eq DU).
+Proof. exact du_ring. Qed.
+
+Example C06_grad_nonvacuous :
+  (forall a b, du_D (du_add a b) = du_add (du_D a) (du_D b)) /\
+  (forall a b, du_D (du_mul a b) = du_add (du_mul (du_D a) b) (du_mul a (du_D b))) /\
+  let c := du_circuit in
+  let col := col_of DU unit c [] in
+  allpos (c_radixes c) /\
+  Forall (wf_entry DU (c_radixes c)) col /\
+  Forall (unitary_entry DU du0 du1 du_add du_mul du_conj (c_radixes c)) col /\
+  exists x, col = [] ++ x :: [] /\ (0 < length (e_dM DU x))%nat /\
+    nd_eq DU (nth 0 (e_dM DU x) du_gate) (nd_D DU du_D (e_M DU x)) /\
+    at_ (nd_D DU du_D (e_M DU x)) [0; 0] <> du0 /\
+    exists G gs, get_unitary_and_grad DU du0 du1 du_add du_mul du_conj unit (fun T => T) c [] = Some (G, gs).
+Proof. exact (conj du_D_add (conj du_D_mul du_example)). Qed.
